@@ -73,6 +73,11 @@ struct cliargs {
                 exit(1);
             }
             if (optarg) {
+                if (m.count(c)) {
+                    // a later value would silently replace the earlier one (e.g. a second --modify-flags list)
+                    fprintf(stderr, "option -%c given more than once\n", c);
+                    exit(1);
+                }
                 m[c] = optarg;
             } else {
                 m[c] = "1";
